@@ -70,11 +70,17 @@ type Exchange struct {
 	ReqClosedBy        string // who closed the client's request pipe reader first
 	ServerCtxCancelled bool
 	AbortedByReqBody   bool // the exchange was aborted because reading the caller's request body failed
+	CancelDeferred     bool // a cancellation arrived while the body sender was blocked in Read after the response was handed over
 }
 
 func (e *Exchange) IsDone() bool      { e.mu.Lock(); defer e.mu.Unlock(); return e.Done }
 func (e *Exchange) Closes() int       { e.mu.Lock(); defer e.mu.Unlock(); return e.BodyCloses }
 func (e *Exchange) GotResponse() bool { e.mu.Lock(); defer e.mu.Unlock(); return e.Delivered }
+
+// WasCancelDeferred: the request context ended while the HTTP/2 body sender
+// was blocked reading the caller's idle request body after the response had
+// been handed over, so the transport did not notice it at that moment.
+func (e *Exchange) WasCancelDeferred() bool { e.mu.Lock(); defer e.mu.Unlock(); return e.CancelDeferred }
 
 // Transport implements connect.HTTPClient.
 type Transport struct {
@@ -100,6 +106,10 @@ type Transport struct {
 	// recording it (as a routing / gateway HTTPClient may do with the request
 	// that belongs to this one call): a later call must not see the rewrite.
 	MutateURL bool
+	// PromptCancel restores an idealised transport that notices the end of the
+	// request context at once in every state (HTTP/1.1 does; HTTP/2 does not
+	// while its body sender is blocked reading an idle request body).
+	PromptCancel bool
 	// FailDo, if non-nil, makes Do fail with this error before any response
 	// (connection refused / closed without an answer).
 	FailDo error
@@ -269,6 +279,12 @@ type call struct {
 	stopAfter    func() bool
 	dropTrailers bool
 	selfClosed   bool // the transport itself closed the client's request body
+	delivered    bool // Do has returned the response to the caller
+	inBodyRead   bool // the request-body reader is inside Read on the caller's body
+	// cancelPending: the context ended while the body reader was blocked in
+	// Read after the response had been handed over; it takes effect when that
+	// Read returns.
+	cancelPending bool
 	aborted      chan struct{}
 	abortOnce    sync.Once
 	abortErr     error
@@ -286,7 +302,7 @@ func (c *call) reqBodyFailed(err error) {
 	c.mu.Lock()
 	self := c.selfClosed
 	c.mu.Unlock()
-	if self || c.clientCtx.Err() != nil {
+	if self {
 		return
 	}
 	c.abortOnce.Do(func() {
@@ -298,6 +314,20 @@ func (c *call) reqBodyFailed(err error) {
 		c.resp.finish(err)
 		close(c.aborted)
 	})
+}
+
+// applyCancel: the transport noticed that the request context is done.
+func (c *call) applyCancel() {
+	err := c.clientCtx.Err()
+	c.ex.mu.Lock()
+	c.ex.ServerCtxCancelled = true
+	c.ex.mu.Unlock()
+	c.serverCancel()
+	c.resp.breakWith(err)
+	if c.reqBuf != nil {
+		c.reqBuf.breakWith(errors.New("memhttp: client disconnected"))
+	}
+	c.closeClientReqBody("cancel")
 }
 
 func (c *call) closeClientReqBody(who string) {
@@ -379,16 +409,25 @@ func (t *Transport) Do(req *http.Request) (*http.Response, error) {
 	// Client cancellation: server context is cancelled, reads fail, request
 	// body is closed (RoundTripper contract).
 	c.stopAfter = context.AfterFunc(ctx, func() {
-		err := ctx.Err()
-		c.ex.mu.Lock()
-		c.ex.ServerCtxCancelled = true
-		c.ex.mu.Unlock()
-		serverCancel()
-		c.resp.breakWith(err)
-		if c.reqBuf != nil {
-			c.reqBuf.breakWith(errors.New("memhttp: client disconnected"))
+		// net/http's HTTP/2 transport watches the request context in RoundTrip
+		// until it has handed over the response, and afterwards only from the
+		// goroutine that sends the request body - which cannot look while it is
+		// blocked in Read on an open, idle body.  (Measured on go1.23.5 and
+		// go1.26.8: a Receive blocked on the response stays blocked after
+		// cancel until the caller writes to or closes the request body.)
+		c.mu.Lock()
+		deferred := proto == 2 && !t.PromptCancel && c.delivered && c.inBodyRead
+		if deferred {
+			c.cancelPending = true
 		}
-		c.closeClientReqBody("cancel")
+		c.mu.Unlock()
+		if deferred {
+			c.ex.mu.Lock()
+			c.ex.CancelDeferred = true
+			c.ex.mu.Unlock()
+			return
+		}
+		c.applyCancel()
 	})
 
 	sreq := &http.Request{
@@ -427,15 +466,20 @@ func (t *Transport) Do(req *http.Request) (*http.Response, error) {
 	select {
 	case <-c.headReady:
 	case <-c.aborted:
-		select {
-		case <-c.headReady: // the headers had arrived as well: they win, the body is broken
-		default:
-			t.gate("T.Do.aborted")
-			return nil, urlErr(c.abortErr)
-		}
 	case <-ctx.Done():
-		t.gate("T.Do.ctxdone")
-		return nil, urlErr(ctx.Err())
+	}
+	// several of these may be ready at once: decide in a fixed order so that a
+	// schedule replays identically (headers win; then the context; then an
+	// exchange aborted because the request body failed)
+	select {
+	case <-c.headReady:
+	default:
+		if ctx.Err() != nil {
+			t.gate("T.Do.ctxdone")
+			return nil, urlErr(ctx.Err())
+		}
+		t.gate("T.Do.aborted")
+		return nil, urlErr(c.abortErr)
 	}
 	t.gate("T.Do.head")
 	// The response headers won the race: like net/http, Do hands the response
@@ -470,6 +514,9 @@ func (t *Transport) Do(req *http.Request) (*http.Response, error) {
 	ex.mu.Lock()
 	ex.Delivered = true
 	ex.mu.Unlock()
+	c.mu.Lock()
+	c.delivered = true
+	c.mu.Unlock()
 	return resp, nil
 }
 
@@ -574,7 +621,22 @@ func (c *call) pump() {
 	buf := make([]byte, 32*1024)
 	for {
 		c.t.gate("T.pump")
+		c.mu.Lock()
+		c.inBodyRead = true
+		c.mu.Unlock()
 		n, err := c.req.Body.Read(buf)
+		c.mu.Lock()
+		c.inBodyRead = false
+		pending := c.cancelPending
+		c.cancelPending = false
+		c.mu.Unlock()
+		if pending && (err == nil || err == io.EOF) {
+			// back from Read: the sender looks at the context before it goes
+			// on (a failed Read is returned first, see below)
+			c.t.gate("T.pump.cancel")
+			c.applyCancel()
+			return
+		}
 		if n > 0 {
 			c.ex.mu.Lock()
 			c.ex.ReqBody = append(c.ex.ReqBody, buf[:n]...)
@@ -602,6 +664,9 @@ func (c *call) pump() {
 			} else {
 				c.reqBuf.finish(fmt.Errorf("memhttp: request body: %w", err))
 				c.reqBodyFailed(err)
+				if pending {
+					c.applyCancel() // (no-op for what reqBodyFailed already did)
+				}
 			}
 			return
 		}
